@@ -284,7 +284,7 @@ macro_rules! debug_case {
 }
 
 /// Debug output is that of the equivalent slice, for a list of format specs
-pub fn debug_fmt<const N: usize, const P: u32, S: Src>(s: &mut S) {
+pub fn debug_fmt<const N: usize, const SPEC: usize, const P: u32, S: Src>(s: &mut S) {
     let mut buf = CircularBuffer::<N, D>::new();
     let rot = s.usize();
     s.assume(if N == 0 { rot == 0 } else { rot < N });
@@ -321,13 +321,12 @@ pub fn debug_fmt<const N: usize, const P: u32, S: Src>(s: &mut S) {
         D(arr[8]), D(arr[9]), D(arr[10]), D(arr[11]), D(arr[12]), D(arr[13]), D(arr[14]), D(arr[15]),
     ];
     let slice = &mut sl[..len];
-    let which = s.u8();
-    s.assume(which < 5);
-    match which {
+    match SPEC {
         0 => debug_case!(buf, slice, len, "{:?}"),
-        1 => debug_case!(buf, slice, len, "{:#?}"),
-        2 => debug_case!(buf, slice, len, "{:5?}"),
-        3 => debug_case!(buf, slice, len, "{:<8.3?}"),
+        1 => debug_case!(buf, slice, len, "{:5?}"),
+        2 => debug_case!(buf, slice, len, "{:<8.3?}"),
+        3 => debug_case!(buf, slice, len, "{:+010?}"),
+        4 => debug_case!(buf, slice, len, "{:#?}"),
         _ => debug_case!(buf, slice, len, "{:+#010?}"),
     }
 }
